@@ -97,6 +97,18 @@ def move_rule_function(src):
     moved = blocks[:k] + blocks[k + 1:] + [blocks[k] if blocks[k].endswith('\n') else blocks[k] + '\n']
     return src[:starts[0]] + ''.join(moved) + src[ends[-1]:]
 
+def drop_alternative(src):
+    """Another revision of a grammar module that differs only in the TEXT of one rule (the last alternative of a
+    rule with several is gone): same rule-function names, tokens and precedence."""
+    import re
+    m = re.search(r"(\n[ \t]*\|[ \t]*expression TIMES expression)'''", src) or \
+        re.search(r"('''[a-z_]+ : [^'\n]*(?:\n[ \t]*\|[^'\n]*)*)(\n[ \t]*\|[^'\n]*)'''", src)
+    if not m:
+        return None
+    if m.lastindex == 1:
+        return src[:m.start(1)] + src[m.end(1):]
+    return src[:m.start(2)] + src[m.end(2):]
+
 def stale_grammar_dir(base, flavour='prec'):
     """Tables generated by ANOTHER REVISION of the two grammars (same rule
     functions; operator precedence changed, or - flavour 'ruleorder' - one rule
@@ -104,7 +116,7 @@ def stale_grammar_dir(base, flavour='prec'):
     version, different signature - using them would change parses.  Built by
     running a textually modified copy of the grammar modules of the tree under
     test as scripts with TMPDIR pointing at the result directory."""
-    d = os.path.join(base, 'stale-grammar-master' if flavour == 'prec' else 'stale-ruleorder-master')
+    d = os.path.join(base, {'prec': 'stale-grammar-master', 'ruleorder': 'stale-ruleorder-master', 'ruletext': 'stale-ruletext-master'}[flavour])
     if os.path.isdir(d):
         return d if all(os.path.isfile(os.path.join(d, m + '.py')) for m in MODS) else None
     os.makedirs(d)
@@ -117,7 +129,7 @@ def stale_grammar_dir(base, flavour='prec'):
             ok = False
             break
         mod = os.path.join(base, 'stale_src_' + os.path.basename(rel))
-        changed = src.replace(a, b, 1) if flavour == 'prec' else move_rule_function(src)
+        changed = src.replace(a, b, 1) if flavour == 'prec' else move_rule_function(src) if flavour == 'ruleorder' else drop_alternative(src)
         if changed is None or changed == src:
             ok = False
             break
@@ -188,13 +200,16 @@ def prepare_dir(d, state, warm, rng, log):
             log.append('stale-signature:%s' % m)
         elif kind == 'stale-grammar':
             flavour = 'ruleorder' if rng.random() < 0.4 else 'prec'
+            # third flavour (keyed by the preparation seed itself, the other draws are unaffected): one rule's text changed
+            if int(hashlib.sha256(('%s|%s|ruletext' % (state.get('targets'), rng.getstate()[1][:3])).encode()).hexdigest(), 16) % 3 == 0:
+                flavour = 'ruletext'
             sg = stale_grammar_dir(os.path.dirname(warm), flavour)
             if sg is None:
                 shutil.copyfile(src, dst)
                 log.append('stale-grammar-unavailable')
             else:
                 shutil.copyfile(os.path.join(sg, m + '.py'), dst)
-                log.append('stale-grammar:%s' % m if flavour == 'prec' else 'stale-ruleorder:%s' % m)
+                log.append({'prec': 'stale-grammar:%s', 'ruleorder': 'stale-ruleorder:%s', 'ruletext': 'stale-ruletext:%s'}[flavour] % m)
         elif kind == 'stale-sigbytes':
             k = data.find(b'_lr_signature = ')
             e = data.find(b'\n', k)
@@ -312,6 +327,21 @@ def execute(base, run, tag):
             if pyopt:
                 stats['fired'].append('python-O')
             a1, a2 = api_view(r1), api_view(r2)
+            # the order in which a process imports the public modules is part of its start-up schedule, not an input:
+            # the reference lifetime of this order must answer like the reference lifetime of the first order
+            s0, r0, _, _ = reference(base, ORDERS[0])
+            if s0 == 'ok' and lf['order'] != ORDERS[0]:
+                a0 = api_view(r0)
+                dd = first_diff(dict(a0, imports=None), dict(a1, imports=None))
+                if dd:
+                    line = None
+                    if dd[1] is not None:
+                        line = {'asm': INTEL, 'asm_att': ATT, 'bad': [b[1] for b in BAD]}.get(dd[0], [None] * 99)[dd[1]]
+                    viol = {'class': 'import-order:' + dd[0], 'lifetime': n,
+                            'detail': {'field': dd[0], 'index': dd[1], 'input': line, 'order': lf['order'], 'first_order': ORDERS[0],
+                                       'this_order': dd[3], 'first_order_result': dd[2]}}
+                    break
+                stats['fired'].append('import-order-compared')
             dd = first_diff(a1, a2)
             if dd:
                 viol = {'class': 'empty-vs-warm:' + dd[0], 'lifetime': n,
